@@ -130,7 +130,7 @@ def run_case(item):
                 w = workertrace.build_ed(case, events, tables, tid)
                 rec['_worker'] = None if w is None else (('ED',) + w[0], w[1])
             else:
-                rec['_worker'] = workertrace.build(case, events, tables, tid)
+                rec['_worker'] = workertrace.build_all(case, events, tables, tid)
         except Exception as exc:                     # hooks changed shape: implementation layer unavailable
             rec['_worker'] = ('error', '%s: %s' % (type(exc).__name__, exc))
     return rec
@@ -165,7 +165,13 @@ def validate_workers(workers, name):
     """Implementation-layer validation of the worker traces built from hook events."""
     import os
     groups, broken = {}, 0
+    flat = []
     for w in workers:
+        if isinstance(w, list):
+            flat.extend(w)
+        elif w is not None:
+            flat.append(w)
+    for w in flat:
         if w is None:
             continue
         if w[0] == 'error' or w[1] is None:
